@@ -33,8 +33,9 @@ RULE = ("Fault enumeration. (a) systematic: every fault kind {never quoted, bid-
 ASSUMPTIONS = ["'in-between' cases (needed side present, other side missing) may raise or not, but must be atomic",
                "interest for the elapsed period may already have been credited when a rebalance raises (stated by the property)"]
 REQUIRED = ["C13:valuation-raises-when-missing", "C13:valuation-ok-when-flat", "C13:rebalance-raises-when-missing",
-            "C13:rebalance-ok-when-quoted", "C13:atomic-on-failure", "C13:failpoint-atomic", "C13:episode-atomic"]
-REQUIRED_CATS = ["measure:weight", "measure:nr-contracts", "closed-with-float-residual"]
+            "C13:rebalance-ok-when-quoted", "C13:atomic-on-failure", "C13:failpoint-atomic", "C13:episode-atomic",
+            "C13:episode-fault-raises", "C13:episode-raises-only-when-needed"]
+REQUIRED_CATS = ["measure:weight", "measure:nr-contracts", "closed-with-float-residual", "episode-fault-latent", "episode-1"]
 REQUIRED_HITS = ["Broker.transact", "Broker.rebalance", "Rebalancing.make_trades"]
 TECHNIQUE = "runtime monitoring with fault injection: enumerated quote faults and sys.monitoring failpoints, atomicity asserted via the Broker.transact hook"
 LEVEL_TEXT = ("Fault enumeration. All single-contract fault kinds x position x target combinations are enumerated against the real "
@@ -325,7 +326,11 @@ def case(ctx, i, tier):
 
 
 def episode_case(ctx):
-    """Faults injected through the event stream of a real TradingEnv."""
+    """Faults injected through the event stream of a real TradingEnv, with and without latency, over
+    two episodes of the same environment.  A delivery model says from which step on the fault is in
+    effect (fault stamped at timestep kf, or within the latency after it); the oracle then demands a
+    loud failure exactly when a position whose liquidation side is gone is held, or a both-sides-gone
+    contract is targeted, and silence otherwise."""
     from tradingenv.env import TradingEnv
     from tradingenv.spaces import BoxPortfolio
     from tradingenv.transmitter import Transmitter
@@ -335,15 +340,20 @@ def episode_case(ctx):
     t0 = datetime(2020, 6, 1, 12)
     grid = [t0 + timedelta(days=k) for k in range(n)]
     evs = []
-    kf = rng.randint(1, n - 2)          # step at which the fault event arrives
+    kf = rng.randint(1, n - 2)          # timestep at (or just after) which the fault event is stamped
     cf = rng.choice(cs)
     f = rng.choice(["bidnan", "asknan", "bothnan", "disc", "missing-from-now-on"])
+    L = rng.choice([0, 0, 10, 3600])
+    off = rng.choice([0, L / 2.0])      # > 0: the fault is a latent event of timestep kf
     px = {c: rng.choice([20.0, 100.0, 2500.0]) for c in cs}
     for k, t in enumerate(grid):
         for c in cs:
             px[c] *= math.exp(rng.gauss(0, 0.01))
             bid, ask = px[c] * 0.999, px[c] * 1.001
             if c is cf and k >= kf:
+                if k == kf and off > 0:
+                    evs.append(EventNBBO(t, c, bid, ask))      # a good quote first, the fault shortly after
+                    t = t + timedelta(seconds=off)
                 if f == "bidnan":
                     bid = NAN
                 elif f == "asknan":
@@ -359,45 +369,77 @@ def episode_case(ctx):
             evs.append(EventNBBO(t, c, bid, ask))
     tr = Transmitter(grid)
     tr.add_events(evs)
+    kw = dict(latency=L) if L else {}
     env = TradingEnv(action_space=BoxPortfolio(cs, -1, 1), transmitter=tr, initial_cash=1e6,
-                     broker_fees=BrokerFees(proportional=1e-4))
-    env.reset()
-    done = False
-    k = 0
-    raised = 0
-    while not done and k < n + 2:
-        k += 1
-        a = np.array([rng.choice([0.0, rng.uniform(-0.4, 0.4)]) for _ in cs])
-        h0 = env.broker.holdings_quantity
-        n0 = len(env.broker.track_record)
-        with TransactCounter() as cnt:
+                     broker_fees=BrokerFees(proportional=1e-4), **kw)
+    icf = cs.index(cf)
+
+    def liqmissing(p):
+        return p != 0 and (f in ("bothnan", "disc") or (f == "bidnan" and p > 0) or (f == "asknan" and p < 0))
+
+    raised_total = 0
+    for episode in range(2):
+        env.reset()
+        done = False
+        j = 0                   # index of the timestep the environment stands at
+        attempts = 0
+        raised = 0
+        while not done and attempts < n + 3 and raised < 3:
+            attempts += 1
+            a = np.array([rng.choice([0.0, rng.uniform(-0.4, 0.4)]) for _ in cs])
+            if abs(a[icf]) < 1e-3:
+                a[icf] = 0.0
+            h0 = env.broker.holdings_quantity
+            n0 = len(env.broker.track_record)
+            p0 = h0.get(cf, 0.0)
+            in_effect = j >= kf                                  # at the time the rebalance executes
+            with TransactCounter() as cnt:
+                try:
+                    o, r, done, info = env.step(a)
+                    ok = True
+                except EndOfEpisodeError:
+                    break
+                except Exception:
+                    ok = False
+            reb = getattr(cnt, "rebalance_raised", "never-called")
+            must_reb = in_effect and (liqmissing(p0) or (a[icf] != 0 and f in ("bothnan", "disc")))
+            may_reb = in_effect and f in ("bidnan", "asknan") and (p0 != 0 or a[icf] != 0)
+            d = dict(step=attempts, timestep=j, fault=f, fault_at=kf, latency=L, offset=off, episode=episode,
+                     held=p0, target=float(a[icf]))
+            if reb not in (None, "never-called"):
+                # the rebalance itself raised
+                raised += 1
+                h1 = env.broker.holdings_quantity
+                ctx.cat("episode:raised-in-rebalance")
+                ctx.check("C13:episode-atomic", cnt.n == 0 and len(env.broker.track_record) == n0 and
+                          all(h1.get(c, 0.0) == h0.get(c, 0.0) for c in cs), transacts=cnt.n, **d)
+                ctx.check("C13:episode-raises-only-when-needed", must_reb or may_reb, where="rebalance", **d)
+                continue          # the caller catches it and carries on: the environment has not moved
+            ctx.check("C13:episode-fault-raises", not must_reb, where="rebalance", **d)
+            if reb == "never-called":
+                break
+            j += 1
+            p1 = env.broker.holdings_quantity.get(cf, 0.0)
+            held_bad = j >= kf + (1 if off > 0 else 0) and liqmissing(p1)
+            if not ok:
+                # the rebalance went through; the step failed later, while valuing the account after the faulty
+                # quote arrived (correct: valuation must raise rather than value at zero/NaN)
+                raised += 1
+                ctx.cat("episode:raised-in-valuation-after-rebalance")
+                ctx.check("C13:episode-record-kept", len(env.broker.track_record) == n0 + 1, **d)
+                ctx.check("C13:episode-raises-only-when-needed", held_bad, where="valuation", held_after=p1, **d)
             try:
-                o, r, done, info = env.step(a)
-                ok = True
+                v = env.broker.net_liquidation_value(False)
+                ctx.check("C13:no-nan-value", not math.isnan(v), **d)
+                ctx.check("C13:episode-fault-raises", not held_bad, where="valuation", held_after=p1, **d)
             except EndOfEpisodeError:
                 break
             except Exception:
-                ok = False
-        if not ok:
-            raised += 1
-            h1 = env.broker.holdings_quantity
-            if getattr(cnt, "rebalance_raised", "never-called") is None:
-                # the rebalance went through; the step failed later, while
-                # valuing the account after the faulty quote arrived (correct:
-                # valuation must raise rather than value at zero/NaN).
-                ctx.cat("episode:raised-in-valuation-after-rebalance")
-                ctx.check("C13:episode-record-kept", len(env.broker.track_record) == n0 + 1)
-            else:
-                ctx.cat("episode:raised-in-rebalance")
-                ctx.check("C13:episode-atomic", cnt.n == 0 and len(env.broker.track_record) == n0 and
-                          all(h1.get(c, 0.0) == h0.get(c, 0.0) for c in cs), step=k, fault=f, transacts=cnt.n)
-            break
-        # a successful step must leave no NaN valuation behind
-        try:
-            v = env.broker.net_liquidation_value(False)
-            ctx.check("C13:no-nan-value", not math.isnan(v), step=k)
-        except Exception:
-            ctx.cat("episode:valuation-raises-after-fault")
-    ctx.cat("episode", "episode-fault:" + f, "episode-raised" if raised else "episode-completed")
+                ctx.cat("episode:valuation-raises-after-fault")
+                ctx.check("C13:episode-raises-only-when-needed", held_bad, where="valuation-call", held_after=p1, **d)
+        raised_total += raised
+        ctx.cat("episode-%d" % episode)
+    ctx.cat("episode", "episode-fault:" + f, "episode-raised" if raised_total else "episode-completed",
+            "episode-latency" if L else "episode-no-latency", "episode-fault-latent" if off > 0 else "episode-fault-on-timestep")
     ctx.nontrivial = True
-    ctx.sample = {"episode": True, "fault": f, "fault_step": kf, "contract": cf.symbol, "steps": k}
+    ctx.sample = {"episode": True, "fault": f, "fault_step": kf, "contract": cf.symbol, "latency": L, "offset": off}
